@@ -340,3 +340,70 @@ func allCalls(fn *ssa.Function, f func(ssa.CallInstruction)) {
 		}
 	})
 }
+
+// findFn returns the unique non-auxiliary, top-level fx-core function satisfying pred (nil if none or ambiguous).
+// Rules use it as the structural fallback when a function is no longer found under the name it has today, so that a
+// rename does not raise an unresolved-anchor alarm.
+func (e *Engine) findFn(pred func(*ssa.Function) bool) *ssa.Function {
+	var hit *ssa.Function
+	n := 0
+	for _, fn := range e.Funcs {
+		if fn.Parent() != nil || isAuxPkg(fnPkgPath(fn)) {
+			continue
+		}
+		if pred(fn) {
+			hit = fn
+			n++
+		}
+	}
+	if n == 1 {
+		return hit
+	}
+	return nil
+}
+
+// callsNamed: fn contains a call whose callee (method or function) is named n.
+func callsNamed(fn *ssa.Function, names ...string) bool {
+	found := false
+	allCalls(fn, func(c ssa.CallInstruction) {
+		for _, n := range names {
+			if callName(c) == n {
+				found = true
+			}
+		}
+	})
+	return found
+}
+
+// refCountDelta: +1 / -1 if fn reads a record, changes its field ReferenceCount by one and writes it back; 0 otherwise.
+func refCountDelta(fn *ssa.Function) int {
+	d := 0
+	allInstrs(fn, func(i ssa.Instruction) {
+		st, ok := i.(*ssa.Store)
+		if !ok {
+			return
+		}
+		fa, ok := st.Addr.(*ssa.FieldAddr)
+		if !ok {
+			return
+		}
+		if n, _, _ := fieldName(fa); n != "ReferenceCount" {
+			return
+		}
+		if bo, ok := st.Val.(*ssa.BinOp); ok {
+			switch bo.Op.String() {
+			case "+":
+				d = 1
+			case "-":
+				d = -1
+			}
+		}
+	})
+	return d
+}
+
+// verifDirGlobal is the /verif directory of this run (set by main); rules that import another property's obligations
+// use it to read the committed known-findings file.
+var verifDirGlobal = "/verif"
+
+func (e *Engine) verifDirForKnown() string { return verifDirGlobal + "/known_findings.jsonl" }
